@@ -1,5 +1,6 @@
 // C03 — lifetimes of the alternatives of variant<TrackedA, int, TrackedB, TrackedC> (three distinct tracked types of the
-// copy+move, move-only and copy-only kinds).  Oracle: see props/C03_shared.cpp.
+// copy+move, move-only and copy-only kinds, and of the "TA" shape whose assignment operators are defaulted/trivial while
+// its constructors and destructor are not: the shape that tells a bytewise defaulted variant assignment from a proper one).  Oracle: see props/C03_shared.cpp.
 // Engines: E2 the complete (operation x from-index x to-index x kind) matrix in both tiers: emplace<I>, emplace<T>,
 // converting assignment (rvalue / lvalue), copy / move assignment, copy / move construction, converting and in_place
 // construction, etl::swap, self copy-assignment, self move-assignment, self-swap; E1 rapidcheck histories over three
@@ -17,13 +18,10 @@ namespace {
 
 using namespace c03;
 
-template <Kind K>
+template <typename A, typename B, typename C>
 struct VAR {
-    using A                  = TV<0, K>;
-    using B                  = TV<1, K>;
-    using C                  = TV<2, K>;
     using V                  = etl::variant<A, int, B, C>;
-    static constexpr bool CP = copyable<K>;
+    static constexpr bool CP = std::is_copy_constructible_v<A>;
 
     template <std::size_t I>
     using alt_t = std::conditional_t<I == 0, A, std::conditional_t<I == 1, int, std::conditional_t<I == 2, B, C>>>;
@@ -45,11 +43,14 @@ struct VAR {
     {
         return alt_t<I>(v);
     }
-    static auto val_of(int v) -> int { return v; }
-    template <int Tag>
-    static auto val_of(TV<Tag, K> const& t) -> int
+    template <typename X>
+    static auto val_of(X const& t) -> int
     {
-        return t.get();
+        if constexpr (std::is_same_v<X, int>) {
+            return t;
+        } else {
+            return t.get();
+        }
     }
     // {index, value}; reading goes through the library's accessor and through Tracked::get() (registry-checked)
     static auto snap(V const& v) -> std::vector<int>
@@ -357,25 +358,33 @@ struct Cell {
 };
 auto show_case(Cell const& c) -> std::string { return std::to_string(c.kind) + " " + std::to_string(c.op) + " " + std::to_string(c.from) + " " + std::to_string(c.to); }
 
-char const* const kind_names[] = {"TCM", "TMO", "TCO"};
+// the four element families: the three Tracked kinds (user-provided assignment) and TA (trivial, defaulted assignment)
+using VCM = VAR<TV<0, Kind::copy_move>, TV<1, Kind::copy_move>, TV<2, Kind::copy_move>>;
+using VMO = VAR<TV<0, Kind::move_only>, TV<1, Kind::move_only>, TV<2, Kind::move_only>>;
+using VCO = VAR<TV<0, Kind::copy_only>, TV<1, Kind::copy_only>, TV<2, Kind::copy_only>>;
+using VTA = VAR<TA<0>, TA<1>, TA<2>>;
+constexpr std::uint32_t nkinds = 4;
+char const* const kind_names[] = {"TCM", "TMO", "TCO", "TA (trivially assignable)"};
 auto run_cell(Cell const& c) -> std::string
 {
     std::string d;
-    switch (c.kind % 3) {
-    case 0: d = VAR<Kind::copy_move>::matrix_case(c.op, c.from % 4, c.to % 4); break;
-    case 1: d = VAR<Kind::move_only>::matrix_case(c.op, c.from % 4, c.to % 4); break;
-    default: d = VAR<Kind::copy_only>::matrix_case(c.op, c.from % 4, c.to % 4); break;
+    switch (c.kind % nkinds) {
+    case 0: d = VCM::matrix_case(c.op, c.from % 4, c.to % 4); break;
+    case 1: d = VMO::matrix_case(c.op, c.from % 4, c.to % 4); break;
+    case 2: d = VCO::matrix_case(c.op, c.from % 4, c.to % 4); break;
+    default: d = VTA::matrix_case(c.op, c.from % 4, c.to % 4); break;
     }
     if (d.empty()) { return d; }
-    return std::string("variant<A,int,B,C> of ") + kind_names[c.kind % 3] + ", " + VAR<Kind::copy_move>::op_names[c.op % VAR<Kind::copy_move>::NOPS] + " from index " + std::to_string(c.from % 4) + " to index " + std::to_string(c.to % 4) + ": " + d;
+    return std::string("variant<A,int,B,C> of ") + kind_names[c.kind % nkinds] + ", " + VCM::op_names[c.op % VCM::NOPS] + " from index " + std::to_string(c.from % 4) + " to index " + std::to_string(c.to % 4) + ": " + d;
 }
 
 void init_configs()
 {
     configs() = {
-        Config{"variant<A,int,B,C>/TCM", &VAR<Kind::copy_move>::run, VAR<Kind::copy_move>::NOPS, VAR<Kind::copy_move>::op_names, true},
-        Config{"variant<A,int,B,C>/TMO", &VAR<Kind::move_only>::run, VAR<Kind::move_only>::NOPS, VAR<Kind::move_only>::op_names, true},
-        Config{"variant<A,int,B,C>/TCO", &VAR<Kind::copy_only>::run, VAR<Kind::copy_only>::NOPS, VAR<Kind::copy_only>::op_names, true},
+        Config{"variant<A,int,B,C>/TCM", &VCM::run, VCM::NOPS, VCM::op_names, true},
+        Config{"variant<A,int,B,C>/TMO", &VMO::run, VMO::NOPS, VMO::op_names, true},
+        Config{"variant<A,int,B,C>/TCO", &VCO::run, VCO::NOPS, VCO::op_names, true},
+        Config{"variant<A,int,B,C>/TA", &VTA::run, VTA::NOPS, VTA::op_names, true},
     };
 }
 
@@ -384,10 +393,10 @@ void init_configs()
 void vf_run(vf::Ctx& c)
 {
     init_configs();
-    // E2: the complete matrix (every shard runs its slice; 3 kinds x 15 ops x 4 x 4)
+    // E2: the complete matrix (every shard runs its slice; 4 element families x 15 ops x 4 x 4)
     std::uint64_t n = 0;
-    for (std::uint32_t kind = 0; kind < 3; ++kind) {
-        for (std::uint32_t op = 0; op < VAR<Kind::copy_move>::matrix_ops; ++op) {
+    for (std::uint32_t kind = 0; kind < nkinds; ++kind) {
+        for (std::uint32_t op = 0; op < VCM::matrix_ops; ++op) {
             for (std::uint32_t from = 0; from < 4; ++from) {
                 for (std::uint32_t to = 0; to < 4; ++to) {
                     if (!c.mine(n++)) { continue; }
